@@ -275,11 +275,13 @@ package dawn
 
 // Loading a function target reports every error of reading or decoding its record.
 //@ func (*dawn.function).load
+//@   uses (*pickle.Decoder).Decode variant counted
 //@   requires f != nil && f.proj != nil && f.label != nil
 //@   retassert errors-propagate: result == nil ==> err == nil
+//@   ensures  undecodable-stamp-is-an-error: (n_decode == old(n_decode) + 1 && decode_failed) ==> result != nil
 //@   retassert refresh-writes-what-it-read: n_save == old(n_save) + 1 ==> (saved_data == info.Data && saved_rerun == info.Rerun && saved_deps == info.Dependencies)
 //@   ensures  at-most-one-save: n_save <= old(n_save) + 1
-//@   modifies heap, n_json, json_failed, n_save, saved_rerun, saved_data, saved_deps, ipos
+//@   modifies heap, n_json, json_failed, n_save, saved_rerun, saved_data, saved_deps, ipos, n_decode, decode_failed
 
 // ---------------------------------------------------------------- C12: source paths stay inside the project
 // A source or generated-file path that is accepted is lexically clean and has no leading ".."
@@ -320,8 +322,11 @@ package dawn
 //@   loop over for#1: invariant parent-closed: forall q: string :: (has(paths, q) && !old(has(paths, q))) ==> (has(paths, pdir(q)) || pdir(q) == p || pdir(q) == proj.root || pdir(q) == q)
 
 //@ func (*dawn.Project).GC$2
+//@   uses os.RemoveAll variant sweep
 //@   requires paths != nil
 //@   callsite RemoveAll: assert only-unmarked: !has(paths, path)
+//@   ensures  sweep-is-not-cut-short: (old(err) == nil && result != nil) ==> result == last_rm_err
+//@   modifies last_rm_err
 
 //@ func (*dawn.Project).GC
 //@   requires proj != nil
@@ -583,14 +588,21 @@ package dawn
 //@ func (*dawn.Project).saveIndex
 //@   trusted
 //@   modifies heap
+//@ ghost n_link int threadlocal = 0
+//@ func (*dawn.Project).link variant counted
+//@   trusted
+//@   ensures n_link == old(n_link) + 1
+//@   modifies heap, n_link
 //@ func (*dawn.Project).load$1
 //@   modifies heap
 //@ func (*dawn.Project).load
+//@   uses (*dawn.Project).link variant counted
 //@   requires proj != nil
+//@   callsite saveIndex: assert index-written-only-after-a-complete-load: n_link == old(n_link) + 1
 //@   ensures  index-not-required: !index ==> n_loadindex == old(n_loadindex)
 //@   ensures  falls-back: (index && n_loadindex == old(n_loadindex) + 1 && loadindex_failed) ==> (n_loadpkg == old(n_loadpkg) + 1 || result != nil)
 //@   ensures  always-full-unless-indexed: (result == nil && n_loadpkg == old(n_loadpkg)) ==> (index && n_loadindex == old(n_loadindex) + 1 && !loadindex_failed)
-//@   modifies heap, n_loadindex, loadindex_failed, n_loadpkg
+//@   modifies heap, n_loadindex, loadindex_failed, n_loadpkg, n_link
 
 // C03: a crash at any point of saveTargetInfo leaves the record path holding either the previous
 // record or the complete new one. The rename is the only effect on the record path
